@@ -433,11 +433,19 @@ Proof.
   - intros H. exists s. split; [exact H|apply String.eqb_refl].
 Qed.
 
+Lemma In_dedup x l : In x (dedup l) <-> In x l.
+Proof.
+  induction l as [|s l IH]; simpl; [tauto|].
+  destruct (mem s (dedup l)) eqn:M.
+  - apply mem_spec in M. split; [tauto|]. intros [->|H]; tauto.
+  - simpl. tauto.
+Qed.
+
 Lemma in_conds t r c :
   In r t -> (c = r_cond r \/ In c (map snd (r_held r))) -> c <> "" -> In c (conds t).
 Proof.
   intros Hr Hc Ne. unfold conds. apply filter_In. split.
-  - apply nodup_In. apply in_flat_map. exists r. split; [exact Hr|]. simpl. destruct Hc; auto.
+  - apply In_dedup. apply in_flat_map. exists r. split; [exact Hr|]. simpl. destruct Hc; auto.
   - destruct (String.eqb c "") eqn:E; [apply String.eqb_eq in E; contradiction|reflexivity].
 Qed.
 
